@@ -1183,6 +1183,11 @@ class Interp:
             if isinstance(v, Loc):
                 return Ptr(v)
             return Ptr(v)
+        if op == "~":
+            v = ctx.rv(self.expr(sub))
+            h = getattr(v, "invert", None)
+            if h is not None:
+                return h()
         raise Gap("unary operator %s" % op)
 
     def e_BinaryOperator(self, n):
